@@ -769,6 +769,8 @@ class Interp:
             return mk("neg", v) if isinstance(v, Term) else -v
         if isinstance(e.op, ast.UAdd):
             return v
+        if isinstance(e.op, ast.Invert):
+            return Op("not", (v,)) if isinstance(v, Term) else ~v
         raise Unsupported("unary " + type(e.op).__name__)
 
     BIN = {ast.Add: "add", ast.Sub: "sub", ast.Mult: "mul", ast.Div: "div", ast.Pow: "pow", ast.FloorDiv: "floordiv",
@@ -979,7 +981,7 @@ class Interp:
             if ann is not None:
                 return self.materialize(o, attr, ann, ci.module)
             if attr in self.prog.instance_attrs(o.cls):
-                v = Sym(f"{o.name}.{attr}")
+                v = Sym(f"{o.name}.{attr}", ("optional",) if attr in self.prog.memo_attrs(o.cls) else ())
                 o.attrs[attr] = v
                 return v
             ga = self.prog.lookup_method(o.cls, "__getattr__")
@@ -1005,14 +1007,16 @@ class Interp:
 
     def materialize(self, o, attr, ann, module):
         s = ast.unparse(ann)
+        opt = False
         if s.startswith("Optional["):
             s = s[len("Optional["):-1]
+            opt = attr.startswith("_")  # a private Optional attribute is typically a memo: `is None` on it is a live decision (hit / miss)
         q = self.prog.resolve_name(module, s.strip("'\""))
         if q in self.prog.classes:
             v = Obj(q, f"{o.name}.{attr}")
         else:
             tags = ("tensor",) if s == "Tensor" else ("float",) if s == "float" else ()
-            v = Sym(f"{o.name}.{attr}", tags)
+            v = Sym(f"{o.name}.{attr}", tags + (("optional",) if opt else ()))
         o.attrs[attr] = v
         return v
 
@@ -1068,7 +1072,25 @@ class Interp:
 
     def comprehension(self, e, env):
         if len(e.generators) != 1:
-            raise Unsupported("nested comprehension")
+            # several `for` clauses: supported when every iterable is a concrete Python sequence
+            base = {"__module__": env["__module__"], "__parent__": env, "__cls__": env.get("__cls__"), "__self__": env.get("__self__")}
+            out = []
+
+            def rec(k, sub):
+                if k == len(e.generators):
+                    out.append(self.eval(e.elt, sub))
+                    return
+                g_ = e.generators[k]
+                it_ = self.strip_iter(self.eval(g_.iter, sub))
+                if not isinstance(it_, (list, tuple, range, dict)):
+                    raise Unsupported("nested comprehension over a symbolic sequence")
+                for x_ in it_:
+                    sub2 = dict(sub)
+                    self.assign(g_.target, x_, sub2, e)
+                    if all(self.truth(self.eval(c, sub2), e, sub2) for c in g_.ifs):
+                        rec(k + 1, sub2)
+            rec(0, base)
+            return out
         g = e.generators[0]
         it = self.strip_iter(self.eval(g.iter, env))
         sub = {"__module__": env["__module__"], "__parent__": env, "__cls__": env.get("__cls__"), "__self__": env.get("__self__")}
@@ -1210,6 +1232,8 @@ class Interp:
             return a[0]
         if name == "dict":
             return dict(*a, **kwargs)
+        if name == "id":
+            return Op("py_id", (a[0] if isinstance(a[0], Term) else Sym(repr(a[0])),))
         if name == "type":
             o = a[0]
             return ClassRef(o.cls) if isinstance(o, Obj) else ExtRef("type")
@@ -1266,6 +1290,17 @@ class Interp:
             if attr == "update":
                 d.update(*args, **kwargs)
                 return None
+            if attr == "setdefault":
+                k_ = args[0]
+                if k_ not in d:
+                    d[k_] = args[1] if len(args) > 1 else None
+                    self.ev("dict_store", target=d, key=k_, value=d[k_], node=node, owner=ast.unparse(node.func.value) if isinstance(getattr(node, "func", None), ast.Attribute) else "dict")
+                return d[k_]
+            if attr == "clear":
+                d.clear()
+                return None
+            if attr == "copy":
+                return dict(d)
             raise Unsupported("dict." + attr)
         if kind == "list_method":
             if attr == "append":
@@ -1337,7 +1372,7 @@ MODULE_METHODS = {"register_buffer", "get_buffer", "register_forward_hook", "tra
                   "named_parameters", "zero_grad", "state_dict", "load_state_dict", "buffers", "named_buffers", "modules",
                   "float", "double", "half", "cpu", "cuda", "apply", "requires_grad_"}
 
-BUILTINS = {"len", "range", "list", "tuple", "map", "zip", "any", "all", "isinstance", "issubclass", "hasattr", "getattr",
+BUILTINS = {"id", "len", "range", "list", "tuple", "map", "zip", "any", "all", "isinstance", "issubclass", "hasattr", "getattr",
             "setattr", "int", "float", "str", "repr", "abs", "min", "max", "sum", "round", "sorted", "reversed", "print",
             "iter", "dict", "type", "super", "ValueError", "TypeError", "RuntimeError", "KeyError", "AttributeError",
             "DeprecationWarning", "bytes", "bool", "object", "NotImplementedError", "AssertionError"}
